@@ -419,7 +419,18 @@ Script gen_c09(uint64_t seed, const std::string& tier, Rng& r)
         }
         if (!have_pos || r.chance(0.5))
         {
-            g.set_position(gen_position(r, 100, 0));
+            if (r.chance(0.15))
+            {
+                // under-promotions as searchmoves
+                static const char* promo[] = {"8/P1k5/8/8/8/8/5Kp1/8 w - - 0 1", "4k3/1P6/8/8/8/8/6p1/4K2R b K - 0 1", "8/P1k5/8/8/8/8/5Kp1/8 b - - 0 1", "1n2k3/P7/8/8/8/8/7p/4K1N1 w - - 0 1",
+                                              "1n2k3/P7/8/8/8/8/7p/4K1N1 b - - 0 1"};
+                PosSpec p;
+                p.start_fen = promo[r.below(5)];
+                p.game = ref::Game(ref::Board(p.start_fen));
+                g.set_position(p);
+            }
+            else
+                g.set_position(gen_position(r, 100, 0));
             have_pos = true;
         }
         if (kind < 60)
@@ -454,11 +465,30 @@ Script gen_c03_c04(uint64_t seed, const std::string& prop, Rng& r)
     Script s = gen_session(seed, prop, r, 4, true, 6, 0);
     s.cfg.mon_c03 = prop == "C03";
     s.cfg.mon_c04 = prop == "C04";
+    if (prop == "C04" && r.chance(0.4)) s.cfg.zobrist_mode = 4;  // the engine's own zobrist::init() table
     s.cfg.monitor_rate = prop == "C03" ? 16 : 6;
     s.cfg.node_cap = prop == "C03" ? 60000 : 40000;
     // perft and position replays on the reader thread, observed before/after
     Gen g(r, s);
     g.tmax_ms = 1;
+    if (prop == "C03" && r.chance(0.3))
+    {
+        // a middlegame with the half-move clock close to the limit, searched deep enough for null-move pruning to run
+        // at clock 99 and for draw cut-offs to sit right below
+        PosSpec p = gen_position(r, 60, 2);
+        ref::Board b = p.game.cur;
+        b.halfmove = int(r.range(95, 99));
+        b.ep = -1;
+        PosSpec q;
+        q.start_fen = b.fen();
+        q.game = ref::Game(ref::Board(q.start_fen));
+        if (fen_is_sane(q.start_fen) && !q.game.cur.legal().empty())
+        {
+            s.ops.push_back(send(q.command()));
+            s.ops.push_back(send("go depth " + std::to_string(r.range(6, 8))));
+            s.ops.push_back(simple(OP_AWAIT_BEST));
+        }
+    }
     int extra = int(r.range(0, 2));
     for (int i = 0; i < extra; ++i)
     {
@@ -510,10 +540,18 @@ Script gen_c07(uint64_t seed, const std::string& tier, Rng& r)
     s.cfg.node_cap = 30000;
     // a long game, checked along the way; shuffling phases to reach repetitions and high clocks
     PosSpec p;
-    uint64_t src = r.below(12);
-    if (src < 6) p.start_fen.clear();
+    uint64_t src = r.below(13);
+    bool corner_promo = src == 12;
+    if (corner_promo)
+    {
+        static const char* cr[] = {"r3k2r/1P4P1/8/8/8/8/1p4p1/R3K2R w KQkq - 0 1", "r3k2r/1P4P1/8/8/8/8/1p4p1/R3K2R b KQkq - 0 1", "r3k2r/1P4P1/2n2n2/8/8/2N2N2/1p4p1/R3K2R w KQkq - 4 20",
+                                   "r3k2r/1P4P1/2n2n2/8/8/2N2N2/1p4p1/R3K2R b KQkq - 4 20"};
+        p.start_fen = cr[r.below(4)];
+    }
+    else if (src < 6) p.start_fen.clear();
     else if (src < 8) p.start_fen = curated_fens()[r.below(curated_fens().size())];
-    else if (src < 10) p.start_fen = gen_sparse_fen(r, 1, 6, true);
+    else if (src < 9) p.start_fen = gen_sparse_fen(r, 1, 6, true);
+    else if (src < 10) p.start_fen = gen_evasion_family(r).start_fen;
     else
     {
         // castling still possible, clock already running: castle, then shuffle towards the 50-move limit
@@ -524,7 +562,21 @@ Script gen_c07(uint64_t seed, const std::string& tier, Rng& r)
         p.start_fen = buf;
     }
     p.game = ref::Game(p.start_fen.empty() ? ref::Board() : ref::Board(p.start_fen));
-    if (src >= 10)
+    if (corner_promo)
+    {
+        // a pawn captures an unmoved corner rook while promoting (the owner loses that castling right)
+        int n = int(r.range(1, 2));
+        for (int i = 0; i < n; ++i)
+        {
+            auto ms = p.game.cur.legal();
+            std::vector<ref::RMove> pc;
+            for (auto& m : ms)
+                if (m.promo && ref::kind_of(p.game.cur.sq[m.to]) == ref::KIND_R && (m.to == 0 || m.to == 7 || m.to == 56 || m.to == 63)) pc.push_back(m);
+            if (pc.empty()) { playout(p.game, r, 1, 0.0); continue; }
+            p.game.push(pc[r.below(pc.size())]);
+        }
+    }
+    else if (src >= 10)
     {
         // try to castle within the first plies
         for (int i = 0; i < 4; ++i)
@@ -609,17 +661,49 @@ Script gen_c08(uint64_t seed, const std::string& tier, Rng& r)
     s.cfg.node_cap = 150000;
     if (r.chance(0.3)) s.cfg.zobrist_mode = 3;
     int rounds = int(r.range(1, 3));
+    if (r.chance(0.25))
+    {
+        // many tiny endgames searched deep: zugzwang, null-move and mating-net effects need depth, and each search is cheap
+        int n = int(r.range(5, 10));
+        for (int i = 0; i < n; ++i)
+        {
+            PosSpec p;
+            p.start_fen = r.chance(0.7) ? gen_corner_zugzwang_fen(r) : gen_sparse_fen(r, 1, 2, true);
+            p.game = ref::Game(ref::Board(p.start_fen));
+            g.set_position(p, i == 0);
+            s.ops.push_back(send("go depth " + std::to_string(r.range(6, 9))));
+            s.ops.push_back(simple(OP_AWAIT_BEST));
+        }
+        return s;
+    }
     for (int i = 0; i < rounds; ++i)
     {
         PosSpec p;
         uint64_t k = r.below(100);
-        if (k < 25) p.start_fen = mate_fens()[r.below(mate_fens().size())];
-        else if (k < 40) p.start_fen = quiet_sparse_fens()[r.below(quiet_sparse_fens().size())];
-        else if (k < 80) p.start_fen = gen_sparse_fen(r, 1, 5, true);
+        bool deep_sparse = false;
+        if (k < 20) p.start_fen = mate_fens()[r.below(mate_fens().size())];
+        else if (k < 32) p.start_fen = quiet_sparse_fens()[r.below(quiet_sparse_fens().size())];
+        else if (k < 45) p = gen_evasion_family(r);
+        else if (k < 52) { p.start_fen = gen_sparse_fen(r, 1, 3, true); deep_sparse = true; }
+        else if (k < 62) { p.start_fen = gen_corner_zugzwang_fen(r); deep_sparse = true; }
+        else if (k < 85) p.start_fen = gen_sparse_fen(r, 1, 5, true);
         else p.start_fen = curated_fens()[r.below(curated_fens().size())];
-        p.game = ref::Game(ref::Board(p.start_fen));
-        if (k >= 25 && r.chance(0.5)) playout(p.game, r, int(r.logrange(1, 200)), 0.2);
+        if (!(k >= 32 && k < 45)) p.game = ref::Game(ref::Board(p.start_fen));
+        if ((k >= 45 || (k >= 20 && k < 32)) && r.chance(0.5)) playout(p.game, r, int(r.logrange(1, 200)), 0.2);
         g.set_position(p);
+        if (deep_sparse)
+        {
+            // few men: deep iterations are cheap; zugzwang and null-move effects need depth
+            s.ops.push_back(send("go depth " + std::to_string(r.range(6, 10))));
+            s.ops.push_back(simple(OP_AWAIT_BEST));
+            if (r.chance(0.5))
+            {
+                s.ops.push_back(send(p.command()));
+                s.ops.push_back(send("go depth " + std::to_string(r.range(7, 11))));
+                s.ops.push_back(simple(OP_AWAIT_BEST));
+            }
+            continue;
+        }
         if (r.chance(0.35))
         {
             // an interrupted search (node budget, early stop or time expiry) leaves whatever it stored on the way out;
@@ -714,8 +798,28 @@ Script gen_c14(uint64_t seed, const std::string& tier, Rng& r)
             std::string fen;
             uint64_t k = r.below(10);
             if (k < 1) fen = gen_heavy_fen(r);                // lone king against up to nine queens and all officers
-            else if (k < 3) fen = gen_sparse_fen(r, 0, 6, false);  // pawnless
-            else if (k < 5 && !seen.empty()) fen = seen[r.below(seen.size())];
+            else if (k < 2) fen = gen_sparse_fen(r, 0, 6, false);  // pawnless
+            else if (k < 4) fen = gen_endgame_class_fen(r);   // every specialised endgame class, both colours, both sides to move
+            else if (k < 5 && !seen.empty())
+            {
+                fen = seen[r.below(seen.size())];
+                // the same placement with a few men removed or the side to move flipped: shares evaluator state with its original
+                if (r.chance(0.5))
+                {
+                    ref::Board b(fen);
+                    for (int t = 0; t < 3; ++t)
+                    {
+                        int q = int(r.below(64));
+                        int kd = ref::kind_of(b.sq[q]);
+                        if (kd && kd != ref::KIND_K && r.chance(0.7)) b.sq[q] = 0;
+                    }
+                    if (r.chance(0.3)) { b.side = 1 - b.side; b.ep = -1; }
+                    b.castling = 0;
+                    b.ep = -1;
+                    std::string f2 = b.fen();
+                    if (fen_is_sane(f2) && !ref::Board(f2).legal().empty()) fen = f2;
+                }
+            }
             else if (k < 7) fen = gen_sparse_fen(r, 1, 7, true);
             else if (k < 8) fen = curated_fens()[r.below(curated_fens().size())];
             else
@@ -810,7 +914,18 @@ Script gen_c10(uint64_t seed, const std::string& tier, Rng& r)
             s.ops.push_back(simple(OP_AWAIT_BEST));
         }
     }
-    else if (shape < 65)
+    else if (shape < 56)
+    {
+        // a node with >= 64 legal moves searched deep enough for late-move logic, every subtree cheap
+        PosSpec p;
+        p.start_fen = gen_wide_fen(r);
+        p.game = ref::Game(ref::Board(p.start_fen));
+        g.set_position(p);
+        s.cfg.node_cap = 400000;
+        s.ops.push_back(send("go depth " + std::to_string(r.range(4, 5))));
+        s.ops.push_back(simple(OP_AWAIT_BEST));
+    }
+    else if (shape < 68)
     {
         static const char* big[] = {"R6R/3Q4/1Q4Q1/4Q3/2Q4Q/Q4Q2/pp1Q4/kBNN1KB1 w - - 0 1", "QQQQQQQQ/Q7/8/8/8/8/7k/K7 w - - 0 1",
                                     "NNNNNNNN/NN6/8/8/8/8/5k2/K7 w - - 0 1", "nnnnnnnn/nn6/8/8/8/8/5K2/k7 b - - 0 1",
